@@ -14,7 +14,7 @@ import (
 func init() {
 	Register(&Property{
 		ID: "C11",
-		Explanation: "Decides the two structural halves of 'a configuration that type-checks cannot fail at check time': (R11.1) every AST node kind and operator the parser can construct has a case in every dispatch of the check engine (no 'not implemented' for parsed configurations); (R11.2) every AST field that the engine later consumes as a relation or namespace name has its deferred type check registered where the node is built, on the token the field was taken from (computed subject set and traverse relation -> relation exists in the current namespace; traverse target relation -> every type of the traversed relation has it; subject types -> namespace exists / namespace has relation); (R11.3) parse runs the deferred checks whenever no syntax error occurred and runs every registered check; (R11.4) the deferred checks that quantify over all types of a relation have no early exit on success (every type is checked); (R11.10) no case-folding function is called in the parser, the type checks, the namespace look-ups or the engine (names are compared exactly in every layer); (R11.9) the exhausted side of every depth-budget comparison in package schema records an error; (R11.8) the expression-parsing functions return nil only after an error was recorded (by them, by a failed match, or by the function of the family whose nil result they pass on), so no permission is dropped silently; (R11.7) the parser never wraps a possibly-nil pointer into an AST interface (a typed nil passes every '== nil' test and is dereferenced by the engine at check time); (R11.6) a deferred check reads no parser field that parsing overwrites as it goes (the current namespace, the look-ahead) and writes nothing but the error list, so its outcome depends only on the finished parse; (R11.5) the relations collected for a class are only ever appended to, so no declared relation or permission is lost from the AST the engine evaluates. " +
+		Explanation: "Decides the two structural halves of 'a configuration that type-checks cannot fail at check time': (R11.1) every AST node kind and operator the parser can construct has a case in every dispatch of the check engine (no 'not implemented' for parsed configurations); (R11.2) every AST field that the engine later consumes as a relation or namespace name has its deferred type check registered where the node is built, on the token the field was taken from (computed subject set and traverse relation -> relation exists in the current namespace; traverse target relation -> every type of the traversed relation has it; subject types -> namespace exists / namespace has relation); (R11.3) parse runs the deferred checks whenever no syntax error occurred and runs every registered check; (R11.4) the deferred checks that quantify over all types of a relation have no early exit on success (every type is checked); (R11.11) a class name that repeats is reported (the type checks resolve a name to its first declaration, the namespace manager to its last); (R11.10) no case-folding function is called in the parser, the type checks, the namespace look-ups or the engine (names are compared exactly in every layer); (R11.9) the exhausted side of every depth-budget comparison in package schema records an error; (R11.8) the expression-parsing functions return nil only after an error was recorded (by them, by a failed match, or by the function of the family whose nil result they pass on), so no permission is dropped silently; (R11.7) the parser never wraps a possibly-nil pointer into an AST interface (a typed nil passes every '== nil' test and is dereferenced by the engine at check time); (R11.6) a deferred check reads no parser field that parsing overwrites as it goes (the current namespace, the look-ahead) and writes nothing but the error list, so its outcome depends only on the finished parse; (R11.5) the relations collected for a class are only ever appended to, so no declared relation or permission is lost from the AST the engine evaluates. " +
 			"Not decided: that the type checker's rule for SubjectSet<T,R>-typed traversals equals what the engine evaluates (a semantic comparison of two algorithms; known to differ, see DESIGN.md F14).",
 		Assumptions: []string{"the slot table field -> required check constructor (DESIGN.md R11.2) is the specification of which check guards which field"},
 		Run:         runC11,
@@ -31,6 +31,7 @@ func runC11(c *Ctx) {
 	r117(c)
 	r118(c)
 	r119(c)
+	r1111(c)
 	noCaseFolding(c, "R11.10", []string{schemaRel, "internal/namespace", "internal/check", "internal/driver/config"})
 }
 
@@ -945,4 +946,83 @@ func noCaseFolding(c *Ctx, rule string, rels []string) {
 	r.Check(len(bad) == 0, rule, strings.Join(rels, ", "), "no case folding of names", "",
 		fmt.Sprintf("no case-folding call in %d functions", nFns),
 		strings.Join(bad, "; ")+": names, relations and actions are compared exactly everywhere else, so the layer that folds case accepts (or selects) what the others do not")
+}
+
+// ---- R11.11 a namespace is declared once -----------------------------------------------------------------
+
+// r1111: the type checks resolve a namespace name to its first declaration,
+// the namespace manager (a map by name) to its last. A document that declares
+// a class twice type-checks against one declaration and is evaluated against
+// the other. The function that adds a parsed class to the parser's namespaces
+// looks the name up among those already parsed and records an error when it
+// is there.
+func r1111(c *Ctx) {
+	p, r := c.P, c.R
+	pkgPath := core.KetoMod + "/" + schemaRel
+	var adder *ssa.Function
+	for _, fn := range p.KetoFuncs(schemaRel) {
+		core.Instrs(fn, func(_ *ssa.BasicBlock, _ int, ins ssa.Instruction) {
+			st, ok := ins.(*ssa.Store)
+			if !ok {
+				return
+			}
+			fa, ok := st.Addr.(*ssa.FieldAddr)
+			if !ok {
+				return
+			}
+			if fv := fieldVarOf(fa); fv != nil && fv.Name() == "namespaces" {
+				if call, ok := st.Val.(*ssa.Call); ok {
+					if bi, ok := call.Call.Value.(*ssa.Builtin); ok && bi.Name() == "append" {
+						adder = fn
+					}
+				}
+			}
+		})
+	}
+	if adder == nil {
+		r.Undecide("R11.11", "", "anchor: append to parser.namespaces", "", "not found")
+		return
+	}
+	// an error-recording call on the found==true side of a look-up among p.namespaces
+	okDup := false
+	for _, b := range adder.Blocks {
+		records := false
+		for _, ins := range b.Instrs {
+			if ci, ok := ins.(ssa.CallInstruction); ok {
+				if obj := core.CalleeObj(ci.Common()); obj != nil && obj.Pkg() != nil && obj.Pkg().Path() == pkgPath && (obj.Name() == "addErr" || obj.Name() == "addFatal") {
+					records = true
+				}
+			}
+		}
+		if !records {
+			continue
+		}
+		for _, cd := range core.CondsAt(b) {
+			ex, ok := cd.V.(*ssa.Extract)
+			if !ok || !cd.True {
+				continue
+			}
+			call, ok := ex.Tuple.(*ssa.Call)
+			if !ok {
+				continue
+			}
+			// the look-up runs over the namespaces parsed so far
+			for _, a := range call.Call.Args {
+				v := core.ValueOrigin(a)
+				if ct, ok := v.(*ssa.ChangeType); ok {
+					v = core.ValueOrigin(ct.X)
+				}
+				if u, ok := v.(*ssa.UnOp); ok {
+					if fa, ok := u.X.(*ssa.FieldAddr); ok {
+						if fv := fieldVarOf(fa); fv != nil && fv.Name() == "namespaces" {
+							okDup = true
+						}
+					}
+				}
+			}
+		}
+	}
+	r.Check(okDup, "R11.11", core.FuncName(adder), "duplicate class names are rejected", p.Pos(adder.Pos()),
+		"the name of a parsed class is looked up among the namespaces parsed so far and a repeat is reported",
+		"a class name is added to the parsed namespaces without checking that it is new: the type checks use the first declaration of the name, the namespace manager the last, so a document with a repeated class is accepted and its checks fail with 'relation does not exist'")
 }
